@@ -110,6 +110,7 @@ def run(chk):
 
     # ---- 1. exhaustive model checking of the mechanism against the property
     instances = [("seq N=3 K=2 loops", 3, 2, "seq", True, True, True),
+                 ("part N=3 loops (all 512 digraphs x 16 partial listings)", 3, 0, "part", True, True, True),
                  ("set N=4 loops (all 65536 digraphs)", 4, 0, "set", True, True, True),
                  ("set N=5 loop-free (all 1048576 digraphs)", 5, 0, "set", False, False, False)]
     if thorough:
@@ -180,7 +181,8 @@ def run(chk):
     chk.require(not tr.ok, "corrupted DFS trace was accepted")
 
     # ---- 3. embedded orderers on exhaustive small graphs and random large graphs
-    small = [dict(c) for (name, N, cases) in emitted if N == 3 for c in cases][:2197]
+    small = [dict(c) for (name, N, cases) in emitted if N == 3 and "part" not in name for c in cases][:2197]
+    partial = [dict(c) for (name, N, cases) in emitted if "part" in name for c in cases if len(c["items"]) < 3][::3]
     big = []
     nbig = 300 if thorough else 60
     for i in range(nbig):
@@ -196,11 +198,12 @@ def run(chk):
     chk.cov["evaluations"] += len(big)
     # `form` varies how a dependency is expressed (GDS: SREF / AREF / both and repeated; raw, tetris: leaves with an
     # abstract view only / repeated instances): what counts as "a depends on b" must not depend on the form
-    FORMS = {"gds": (0, 1, 2), "tetris": (0, 1, 2), "raw": (0, 1, 2)}
+    FORMS = {"gds": (0, 1, 2), "tetris": (0, 1, 2, 3), "raw": (0, 1, 2), "tproto": (0, 1, 2), "rawproto": (0, 1, 2)}
     for which, form in [(w, f) for w in EMBEDDED for f in FORMS.get(w, (0,))]:
         cases = []
         label = which if form == 0 else f"{which}+form{form}"
-        for c in small + big:
+        # partial listings (a cell instantiated but not listed): not for GDSII, where an unlisted structure is undefined
+        for c in small + big + (partial if which != "gds" and form == 0 else []):
             cc = {"id": c["id"], "deps": c["deps"], "items": c["items"], "which": which, "form": form}
             if "wit" in c:
                 cc["wit"] = c["wit"]
